@@ -139,6 +139,9 @@ func (c *Ctx) Fresh() bool { return c.Replay || len(c.trail) >= len(c.prefix) }
 // Used is the deviation cost spent so far.
 func (c *Ctx) Used() int { return c.used }
 
+// Choices returns the choice sequence so far (debugging aid).
+func (c *Ctx) Choices() []int { return c.choices() }
+
 func (c *Ctx) choices() []int {
 	out := make([]int, len(c.trail))
 	for i, p := range c.trail {
